@@ -1,8 +1,9 @@
 """C05 - record framing (DESIGN §4 C05).  Small domains enumerated completely.
 
 Attitude points 1..136 (record length 16384) and 1..floor((L-16)/120) for
-L in {136, 256, 1000}; channels 1..16; every facility record 1-4 length
-66..130 and {1000, 5000, 100000} (each alone, all four equal); map projection
+L in {136, 256, 1000}, 1 and the maximum for every L up to 700 / 3000; channels 1..16; every
+facility record 1-4 length 66..130 and {1000, 5000, 100000} (each alone, all four equal), all four
+equal for every length up to 2600 / 20000 and around every power of two up to 2^17; map projection
 0/1; file pointers 0..12; low-resolution trailer images 0..7.  Every record
 holds distinct values, so a record decoded from its neighbour's bytes shows up
 as a leaf mismatch against the reference model (whole tree compared).
@@ -38,6 +39,25 @@ def plan(tier):
             fl[k] = flen
             cases.append({"spec": {**BASE, "leader": {"fac_len": fl}}, "label": f"facility record {k + 1} length {flen}"})
         cases.append({"spec": {**BASE, "leader": {"fac_len": [flen] * 4}}, "label": f"all facility records length {flen}"})
+    # long records: every length up to a bound and the neighbourhood of every power of two (size thresholds,
+    # block sizes); all four records alike, so that each one is followed by a record that must still decode
+    hi = 2600 if tier == "quick" else 20000
+    wide = set(range(131, hi + 1))
+    for p in range(12, 18):
+        wide.update(range(2**p - 70, 2**p + 71))
+    for flen in sorted(wide):
+        cases.append({"spec": {**BASE, "leader": {"fac_len": [flen] * 4}}, "label": f"all facility records length {flen}"})
+    for flen in sorted(wide):
+        if tier == "thorough" and flen <= 4200 or flen in (255, 256, 257, 511, 512, 513, 1023, 1024, 1025, 2047, 2048, 2049, 2100, 4095, 4096, 4097, 65535, 65536, 65537):
+            for k in range(4):
+                fl = [100, 101, 102, 103]
+                fl[k] = flen
+                cases.append({"spec": {**BASE, "leader": {"fac_len": fl}}, "label": f"facility record {k + 1} length {flen}"})
+    for L in range(137, 700 if tier == "quick" else 3000):
+        if L in (256, 1000):
+            continue
+        for n in sorted({1, (L - 16) // 120}):
+            cases.append({"spec": {**BASE, "leader": {"n_att": n, "att_len": L}}, "label": f"attitude points={n} record length {L}"})
     for n_mp in (0, 1):
         for level in ("1.1", "1.5", "3.1"):
             cases.append({"spec": {**BASE, "level": level, "leader": {"n_mp": n_mp}}, "label": f"map projection records={n_mp} level {level}"})
@@ -127,7 +147,7 @@ def trailer_plan():
 def run(res, tier, seed):
     res.rule = (
         "attitude points 1..136 and every count for record lengths 136/256/1000; channels 1..16 (2 levels); facility records 1-4"
-        " each with every length 66..130 and 1000/5000/100000, alone and all equal; map projection 0/1 x 3 levels;"
+        " each with every length 66..130 and 1000/5000/100000, alone and all equal, all equal for every length up to 2600 (quick) /" " 20000 (thorough) and 2^12..2^17 +-70; attitude record lengths 137..699 (quick) / ..2999 with 1 and the maximal number of points; map projection 0/1 x 3 levels;"
         " file pointers 0..12; 3 combined extremes; trailer with 0..7 low-resolution images in every rotation of 7 distinct sizes"
         " (1/2/4 bytes per sample). Every case is a structurally distinct file compared on the whole tree / every trailer image."
     )
